@@ -34,7 +34,7 @@ ASSUMPTIONS = ['"well-typed" = names are strings (or the typed corruption), rows
                'stored-lattice content corruptions are not judged']
 HITS = ('hit_ragged_right_set', 'hit_index_eq_columns', 'hit_accept', 'hit_reject')
 
-NAMES = ('a', 'b', 'x', 'y')
+NAMES = ('a', 'b', 'x', 'y', '')     # the empty string is a name like any other
 
 
 def name_lists():
@@ -56,6 +56,7 @@ FILL = [
 def shards(tier):
     lists = list(name_lists())
     sh = [('K', i, min(len(lists), i + 3)) for i in range(0, len(lists), 3)]
+    sh.append(('WIDE',))
     bound_single, bound_double = (6, 6) if tier == 'quick' else (8, 8)
     for n, m in space.shapes(bound_single):
         total = 1 << (n * m)
@@ -327,8 +328,87 @@ def run_fromdict(shard):
                          'corruptions': ['drop-name:objects:0', 'index=ncols:0']}]}
 
 
+def run_wide(tier):
+    """Big valid dicts (300 columns / 300 rows / 70 x 70) and label sets that differ only
+    by Unicode normalisation or case: every single corruption, and the valid dict itself."""
+    import concepts
+    ctr = collections.Counter()
+    V = []
+    distinct = set()
+    bases = []
+    for n, m in ((2, 300), (300, 2), (70, 70), (4, 4)):
+        objs = [f'o{i}' for i in range(n)]
+        props = [f'p{j}' for j in range(m)]
+        if (n, m) == (4, 4):    # canonically equivalent but different strings, and case twins
+            objs = ['e\u0301', '\u00e9', 'A', 'a']
+            props = ['o\u0308', '\u00f6', 'SS', '\u00df']
+        rows = [[j for j in range(m) if (i * 3 + j) % 7 in (0, 1) or j == m - 1 - (i % 2)]
+                for i in range(n)]
+        bases.append({'objects': objs, 'properties': props, 'context': rows})
+    for base in bases:
+        singles = [c for c in corruptions(base)
+                   if not c[0].startswith(('swap-names', 'shift', 'repeat-index'))
+                   or c[0].endswith((':0', ':0:0', ':0:1'))][:400]
+        for combo in [()] + [(c,) for c in singles]:
+            d = copy.deepcopy(base)
+            for _, fn in combo:
+                fn(d)
+            ok, exp = judge_dict(d)
+            case = {'dict_shape': [len(base['objects']), len(base['properties'])],
+                    'names': base['objects'][:4] + base['properties'][:4],
+                    'corruptions': [nm for nm, _ in combo], 'wide': True}
+            ctr['calls'] += 1
+            try:
+                c = concepts.Context.fromdict(copy.deepcopy(d))
+                err = None
+            except ValueError as e:
+                err = 'ValueError'
+                msg = str(e)
+            except Exception as e:
+                err = f'{type(e).__name__}: {e}'
+            if ok:
+                ctr['hit_accept'] += 1
+                if err is not None:
+                    V.append(common.violation(ID, 'fromdict-valid-accepted', case, 'a context',
+                                              err + (': ' + msg if err == 'ValueError' else '')))
+                else:
+                    got = (tuple(c.objects), tuple(c.properties), [tuple(r) for r in c.bools])
+                    if got != exp:
+                        V.append(common.violation(ID, 'fromdict-accepted-faithful', case, None, None))
+            else:
+                ctr['hit_reject'] += 1
+                distinct.add(_h(['W', case]))
+                if err is None:
+                    V.append(common.violation(ID, 'fromdict-invalid-rejected', case, 'ValueError',
+                                              'accepted'))
+                elif err != 'ValueError':
+                    V.append(common.violation(ID, 'fromdict-rejection-is-ValueError', case,
+                                              'ValueError', err))
+            if len(V) >= 4:
+                break
+        # the constructor with the same triple
+        objs, props = base['objects'], base['properties']
+        rows = [tuple(j in set(r) for j in range(len(props))) for r in base['context']]
+        ctr['calls'] += 1
+        try:
+            c = concepts.Context(objs, props, rows)
+            if (list(c.objects), list(c.properties), [tuple(r) for r in c.bools]) != \
+                    (objs, props, rows):
+                V.append(common.violation(ID, 'accepted-faithful', {'wide': True, 'names': objs[:4]},
+                                          None, None))
+        except Exception as e:
+            V.append(common.violation(ID, 'valid-accepted', {'wide': True, 'names': objs[:4]},
+                                      'a context', f'{type(e).__name__}: {e}'))
+        ctr['tables'] += 1
+    ctr['evaluations'] = ctr['calls']
+    return {'counters': dict(ctr), 'violations': V[:4], 'outcomes': [], 'distinct': distinct,
+            'samples': []}
+
+
 def run_shard(shard, tier):
     try:
+        if shard[0] == 'WIDE':
+            return run_wide(tier)
         if shard[0] == 'K':
             return run_constructor(shard)
         return run_fromdict(shard)
@@ -352,6 +432,8 @@ def replay(v):
     import concepts
     c = v['case']
     out = []
+    if c.get('wide'):
+        return run_wide('quick')['violations']
     if 'dict' in c:
         d = c['dict']
         ok, exp = judge_dict(d)
